@@ -330,7 +330,12 @@ func run(t *testing.T, tape *simrt.Tape) *common.Outcome {
 	// listener side of the TCP transport: 0 = simhost's wrapper Listen, 1 = the real TcpTransport.Listen on a shared-TCP
 	// connection manager (tcpreuse demultiplexing listener + sampledconn; not with a PSK)
 	shared := g.Int(2) == 1 && !usePSK
-	o.Logf("security=%s psk=%v link=%d payload=%d shared-tcp=%v plan: %s", secu, usePSK, mode, payload, shared, p)
+	// cold start (1 run in 4): no fault-free warm-up attempt — the planned fault hits the very FIRST contact of the two
+	// nodes (first dial of the transport, first peer scope, identify's first run, lazily started workers). Without a
+	// warm-up there is no goroutine baseline, so only the goroutine-left audit is dropped in these runs; the resource
+	// manager, raw-connection and after-Close audits do not need one.
+	cold := g.Int(4) == 3
+	o.Logf("security=%s psk=%v link=%d payload=%d shared-tcp=%v cold-start=%v plan: %s", secu, usePSK, mode, payload, shared, cold, p)
 
 	var psk []byte
 	if usePSK {
@@ -446,21 +451,24 @@ func run(t *testing.T, tape *simrt.Tape) *common.Outcome {
 
 		// warm-up: one fault-free attempt so that everything started lazily on first contact exists
 		// before the baseline is taken
-		ctx0, cancel0 := context.WithTimeout(context.Background(), 30*time.Second)
-		if r := attempt(ctx0); r != "ok" {
+		var base map[string]int
+		if !cold {
+			ctx0, cancel0 := context.WithTimeout(context.Background(), 30*time.Second)
+			if r := attempt(ctx0); r != "ok" {
+				cancel0()
+				o.Trouble = "warm-up attempt failed: " + r
+				return
+			}
 			cancel0()
-			o.Trouble = "warm-up attempt failed: " + r
-			return
+			settle(2 * time.Second)
+			closeConns()
+			settle(3 * time.Minute)
+			if pr := append(statProblems("A", a.Rcmgr), statProblems("B", b.Rcmgr)...); len(pr) > 0 {
+				o.Violate("C04/usage-after-clean-close", "after a fault-free connect/echo/close: %v", pr)
+				return
+			}
+			base = goroutines()
 		}
-		cancel0()
-		settle(2 * time.Second)
-		closeConns()
-		settle(3 * time.Minute)
-		if pr := append(statProblems("A", a.Rcmgr), statProblems("B", b.Rcmgr)...); len(pr) > 0 {
-			o.Violate("C04/usage-after-clean-close", "after a fault-free connect/echo/close: %v", pr)
-			return
-		}
-		base := goroutines()
 		warmConns := len(n.Conns())
 
 		// arm the fault
@@ -605,7 +613,7 @@ func run(t *testing.T, tape *simrt.Tape) *common.Outcome {
 				o.Violate("C04/raw-conn-not-closed/"+end+"/"+class(p)+"/"+attemptOutcome, "raw connection #%d (%s end) was never closed after %s (attempt %s)", c.ID(), end, p, attemptOutcome)
 			}
 		}
-		if !closedA && !closedB {
+		if !closedA && !closedB && base != nil {
 			if extra := newGoroutines(base, goroutines()); len(extra) > 0 {
 				o.Violate("C04/goroutine-left/"+class(p)+"/"+attemptOutcome, "goroutines that did not exist before the attempt: %v", extra)
 			}
@@ -633,7 +641,10 @@ func run(t *testing.T, tape *simrt.Tape) *common.Outcome {
 	})
 	o.Sched = res
 	o.Virtual = res.Virtual
-	o.Sig = fmt.Sprintf("%s|%v|%d|%s|%s|fired=%v|%v", secu, usePSK, mode, p, attemptOutcome, fired, shared)
+	o.Sig = fmt.Sprintf("%s|%v|%d|%s|%s|fired=%v|%v|%v", secu, usePSK, mode, p, attemptOutcome, fired, shared, cold)
+	if cold && fired {
+		o.Probe("cold-start-outcome-" + attemptOutcome)
+	}
 	if shared && fired {
 		o.Probe("shared-tcp-outcome-" + attemptOutcome)
 	}
